@@ -296,6 +296,10 @@ def resign_helper(ck, rule):
             continue
         g = tests[-1]
         kind = _sign_test(g[2], vp, nb)
+        if kind is None or kind.startswith("wrongconst"):
+            k2 = _sign_test(g[0], vp, nb)        # the substituted test: named sub-expressions (modulus, sign_bit, residue) are seen through
+            if k2 is not None:
+                kind = k2
         if kind is None:
             ck.unsure(rule, f, "sign test is the bit test (v & 2^(n-1)) != 0 or the comparison v >= 2^(n-1)", g[3], src(g[2])[:80])
             continue
